@@ -1,5 +1,6 @@
 import Litep2pVerif.Proofs.Bitswap.Prefix
 import Litep2pVerif.Proofs.Bitswap.Batch
+import Litep2pVerif.Proofs.Bitswap.Proto
 import Litep2pVerif.Generated.Consts
 /-!
 # C20 — Bitswap blocks are verified against their content identifier; responses are split within
@@ -398,6 +399,177 @@ example :
       ([], .writeError) := by
   decide
 
+/-! ## Protocol level: the event loop around `send_response` (`Model/Bitswap/Proto.lean`)
+
+A response handed to the protocol (`BitswapHandle::send_response`) is written by calls of
+`send_response` on a substream. The theorems below say which calls are made in ANY history of
+connection / substream / dial events, user commands and write failures at any message index. -/
+section ProtoLevel
+open Proto
+
+/-- Small limits for the examples: 10 data bytes per batch, 4 blocks per batch, 100-byte messages. -/
+def toyL : Limits := ⟨10, 4, 100, 100⟩
+def toyK : Kind := ⟨1, 85, 18, 32⟩
+/-- three blocks of 6 bytes: one message each under `toyL` -/
+def toyR : List REntry := [.block ⟨toyK, 4, 6, 1⟩, .block ⟨toyK, 4, 6, 2⟩, .block ⟨toyK, 4, 6, 3⟩]
+
+/-- **Every (re)transmission carries the whole response, from its first message.** In every history
+that starts with the empty protocol state, each call of `send_request` / `send_response` the protocol
+makes is for an action exactly as the user handed it over (never for a part of one), the messages the
+substream accepted are the first messages of the complete sequence for that action (so within one call
+every block is written at most once and in order, by `fitting_blocks_sent_once`), a call that returns
+`Ok` wrote all of them, and a call that fails wrote a strict prefix. In particular, when a cached
+substream fails in the middle of a response, the retry over the next substream starts again with the
+first message of the response: nothing that the failed substream did not take is skipped. -/
+theorem response_delivered_or_dropped_whole (L : Limits) (ops : List Op) (t : Attempt)
+    (h : t ∈ (run L {} ops).2) :
+    t.action ∈ handed ops ∧
+    t.written = (actionFrames L t.action).1.take t.written.length ∧
+    (t.ok = true → t.written = (actionFrames L t.action).1) ∧
+    (t.ok = false → t.written.length < (actionFrames L t.action).1.length ∨ (actionFrames L t.action).2 = false) := by
+  refine ⟨?_, run_wf L ops {} t h⟩
+  rcases run_attempts L ops {} t h with h | h
+  · simp [St.queued, queuedIn] at h
+  · exact h
+
+/-- Non-vacuity: a response of three messages over a cached substream that fails at the second
+message, then a fresh substream: two calls, the first wrote one message and failed, the second wrote
+all three. -/
+example :
+    ((run toyL {} [.conn 1 true, .command 1 (.response []), .subopen 0 none 0, .plan 0 (some 1) 0,
+        .command 1 (.response toyR), .subopen 1 none 0]).2.map fun t => (t.sub, t.written.length, t.ok)) =
+      [(0, 0, true), (0, 1, false), (1, 3, true)] := by
+  decide
+
+/-- **A failed cached substream: the whole action takes the slow path.** If the peer has a cached
+outbound substream and the call on it fails, then afterwards the substream is no longer cached and
+the action — as handed over — is the last entry of the peer's queue (a substream or a dial has been
+requested), except when no substream can be had at all (`open_substream` fails and `dial` answers
+`AlreadyConnected` or an error): then the peer's queue is dropped as a whole. -/
+theorem cached_failure_requeues_whole (L : Limits) (st : St) (p s : Nat) (a : Action)
+    (hc : alookup p st.outbound = some s) (hf : (attempt L s (st.far s) a).1.ok = false) :
+    alookup p (onCommand L st p a).1.outbound = none ∧
+    ((∃ q, alookup p (onCommand L st p a).1.pendingOutbound = some (q ++ [a])) ∨
+     alookup p (onCommand L st p a).1.pendingOutbound = none) := by
+  unfold onCommand
+  simp only [hc, hf, Bool.false_eq_true, if_false]
+  refine ⟨?_, ?_⟩
+  · have : ∀ (st0 : St), (enqueue st0 p a).1.outbound = st0.outbound := by
+      intro st0
+      unfold enqueue
+      split
+      · rfl
+      · unfold openSubstreamOrDial
+        split
+        · rename_i st1 s1 heq
+          unfold openSubstream at heq
+          split at heq
+          · simp only [Option.some.injEq, Prod.mk.injEq] at heq
+            rw [← heq.1]
+          · simp at heq
+        · split <;> rfl
+    rw [this]
+    exact alookup_aerase_self _ _
+  · rcases enqueue_lookup ({ (st.setFar s (attempt L s (st.far s) a).2).dropSub s with
+        outbound := aerase p st.outbound }) p a with h | h
+    · exact Or.inl h
+    · exact Or.inr h.1
+
+/-- Non-vacuity: the state after the failing call of the example above. -/
+example :
+    let st := (run toyL {} [.conn 1 true, .command 1 (.response []), .subopen 0 none 0, .plan 0 (some 1) 0]).1
+    alookup 1 st.outbound = some 0 ∧ (attempt toyL 0 (st.far 0) (.response toyR)).1.ok = false ∧
+    alookup 1 (onCommand toyL st 1 (.response toyR)).1.pendingOutbound = some [.response toyR] ∧
+    (onCommand toyL st 1 (.response toyR)).1.pendingSubstreams = [(1, 1)] := by
+  decide
+
+/-- **A fresh substream gets the queue in order.** When an outbound substream opens for a peer with
+queued actions, the calls made on it are for the first actions of the queue in queue order, each for
+the action as queued (whole); every call but the last returned `Ok`; the queue entry is removed in any
+case, and the substream is cached iff every queued action was sent (otherwise it is dropped together
+with the rest of the queue). -/
+theorem fresh_substream_runs_queue_in_order (L : Limits) (st : St) (p s : Nat) (f : Far) (q : List Action)
+    (hq : alookup p st.pendingOutbound = some q) :
+    (onOutboundSubstream L st p s f).2.attempts.map (·.action) =
+      q.take (onOutboundSubstream L st p s f).2.attempts.length ∧
+    (∀ t ∈ (onOutboundSubstream L st p s f).2.attempts, t.sub = s) ∧
+    (∀ t ∈ (onOutboundSubstream L st p s f).2.attempts.dropLast, t.ok = true) ∧
+    alookup p (onOutboundSubstream L st p s f).1.pendingOutbound = none ∧
+    (alookup p (onOutboundSubstream L st p s f).1.outbound = some s ↔
+      (alookup p st.outbound = some s ∨
+       ((onOutboundSubstream L st p s f).2.attempts.length = q.length ∧
+        ∀ t ∈ (onOutboundSubstream L st p s f).2.attempts, t.ok = true))) := by
+  have hA : (onOutboundSubstream L st p s f).2.attempts = (runActions L s f q).1 := by
+    unfold onOutboundSubstream
+    simp only [hq]
+    split <;> rfl
+  rw [hA]
+  refine ⟨runActions_actions L s q f, fun t ht => (runActions_wf L s q f t ht).2, (runActions_ok L s q f).1, ?_, ?_⟩
+  · unfold onOutboundSubstream
+    simp only [hq]
+    split <;> exact alookup_aerase_self _ _
+  · rw [← (runActions_ok L s q f).2]
+    unfold onOutboundSubstream
+    simp only [hq]
+    split
+    · rename_i hok
+      simp only [hok, or_true, iff_true]
+      exact alookup_ainsert_self _ _ _
+    · rename_i hok
+      simp only [hok, Bool.false_eq_true, or_false]
+
+/-- Non-vacuity: two queued responses, the fresh substream fails at its fifth message: the first
+response is sent completely, the second from its first message up to the failure; nothing is cached. -/
+example :
+    let st := (run toyL {} [.conn 1 true, .command 1 (.response toyR), .command 1 (.response toyR)]).1
+    alookup 1 st.pendingOutbound = some [.response toyR, .response toyR] ∧
+    ((onOutboundSubstream toyL st 1 0 ⟨some 4, 0, false⟩).2.attempts.map fun t => (t.written.length, t.ok)) =
+      [(3, true), (1, false)] ∧
+    (onOutboundSubstream toyL st 1 0 ⟨some 4, 0, false⟩).1.outbound = [] := by
+  decide
+
+/-- **Nothing else touches the queue.** The operations that are neither a user command nor one of
+the events `SubstreamOpened(outbound)`, `SubstreamOpenFailure`, `ConnectionClosed`, `DialFailure`,
+`ConnectionEstablished` leave `pending_outbound` as it is: a queued response is dropped only where the
+handlers say so (dial failure, substream-open failure, connection closed, a failed `open_substream`
+after the dial, a failed call on the fresh substream, no way to get a substream at all). -/
+theorem queue_untouched_by_other_events (L : Limits) (st : St) (op : Op)
+    (h : match op with
+      | .view _ _ | .conndead _ | .plan _ _ _ | .insub _ | .inmsg _ _ | .inend _ => True
+      | _ => False) :
+    (step L st op).1.pendingOutbound = st.pendingOutbound := by
+  cases op with
+  | view p v => rfl
+  | conndead p => simp only [step]; split <;> rfl
+  | plan s b o =>
+    simp only [step]
+    split
+    · rfl
+    · split <;> rfl
+  | insub p => simp only [step]; split <;> rfl
+  | inmsg k d =>
+    simp only [step]
+    split
+    · rfl
+    · split <;> rfl
+  | inend k => simp only [step]; split <;> rfl
+  | conn _ _ => exact absurd h (by simp)
+  | disc _ => exact absurd h (by simp)
+  | dialfail _ => exact absurd h (by simp)
+  | subopen _ _ _ => exact absurd h (by simp)
+  | subfail _ => exact absurd h (by simp)
+  | command _ _ => exact absurd h (by simp)
+
+/-- Non-vacuity: a queued response survives a manager-view change, a dead command channel and an
+inbound substream, and is dropped by the dial failure. -/
+example :
+    ((run toyL {} [.command 2 (.response toyR), .view 2 .dialing, .conn 1 true, .insub 1, .conndead 1]).1.pendingOutbound,
+     (run toyL {} [.command 2 (.response toyR), .view 2 .dialing, .conn 1 true, .insub 1, .conndead 1,
+        .dialfail 2]).1.pendingOutbound) = ([(2, [.response toyR])], []) := by
+  decide
+
+end ProtoLevel
+
 #print axioms cid_self_certifying
 #print axioms malformed_dropped
 #print axioms prefix_roundtrip
@@ -408,5 +580,9 @@ example :
 #print axioms batch_oversize_witness
 #print axioms presence_within_limit
 #print axioms blocks_sent_regardless_of_presences
+#print axioms response_delivered_or_dropped_whole
+#print axioms cached_failure_requeues_whole
+#print axioms fresh_substream_runs_queue_in_order
+#print axioms queue_untouched_by_other_events
 
 end Litep2pVerif.Props.C20
